@@ -522,6 +522,80 @@ def first_undef(seq, exp):
     return '?'
 
 
+# ---- (b2) body-local labels against section symbols of the same name -------------------------------
+
+def bodylocal_cases():
+    """a label defined in a macro / REPT / IRP body is local to the expansion; a reference in the body binds to it, in front of
+    and behind the definition, whichever enclosing section (none, the current one, its parent, its grandparent) or the global
+    scope holds a symbol of the same name, at nesting depths 0..3"""
+    for depth in (0, 1, 2, 3):
+        for where in range(-1, depth + 1):          # -1: no outer symbol; 0: global; k: in the section at nesting level k
+            for wrap in ('macro', 'rept', 'irp'):
+                for refpos in ('before', 'after', 'both'):
+                    yield {'k': 'bodylocal', 'depth': depth, 'where': where, 'wrap': wrap, 'ref': refpos}
+
+
+def ev_bodylocal(case):
+    l = ['\tcpu 6502', '\torg $1000']
+    pc = 0x1000
+    body = []
+    if case['ref'] in ('before', 'both'):
+        body.append('\tjmp skip')
+    body += ['\tnop', 'skip:\tnop']
+    if case['ref'] in ('after', 'both'):
+        body.append('\tjmp skip')
+    if case['wrap'] == 'macro':
+        l += ['m\tmacro'] + body + ['\tendm']
+    outer_addr = None
+    if case['where'] == 0:
+        l.append('skip:\tnop')
+        outer_addr = pc
+        pc += 1
+    for lvl in range(1, case['depth'] + 1):
+        l.append('\tsection s%d' % lvl)
+        if case['where'] == lvl:
+            l.append('skip:\tnop')
+            outer_addr = pc
+            pc += 1
+    start = pc
+    if case['wrap'] == 'macro':
+        l.append('\tm')
+    else:
+        l += ['\trept 1' if case['wrap'] == 'rept' else '\tirp q,1'] + body + ['\tendm']
+    n_before = 3 if case['ref'] in ('before', 'both') else 0
+    local = start + n_before + 1
+    want = []
+    if case['ref'] in ('before', 'both'):
+        want.append((start + 1, local))
+    if case['ref'] in ('after', 'both'):
+        want.append((local + 1 + 1, local))
+    pc = local + 1 + (3 if case['ref'] in ('after', 'both') else 0)
+    if outer_addr is not None:
+        l.append('\tjmp skip')                       # outside the body: the outer symbol
+        want.append((pc + 1, outer_addr))
+        pc += 3
+    for lvl in range(case['depth'], 0, -1):
+        l.append('\tendsection s%d' % lvl)
+    src = '\n'.join(l) + '\n'
+    o, p = asm(src)
+    d = ' / '.join(x.strip() for x in l[2:])
+    ck = core.crashkind(o)
+    if ck:
+        return core.R(False, ck, 'crash/' + ck, '%s on %s' % (ck, d))
+    if o.rc != 0 or p is None:
+        return core.R(False, 'rejected', 'bodylocal/rejected', 'rc=%s %s on %s' % (o.rc, (o.out + o.err)[-200:].decode('latin-1'), d))
+    mem = {}
+    for r in pfile.data_records(pfile.read(p)):
+        for i, b in enumerate(r.data):
+            mem[r.start + i] = b
+    for at, tgt in want:
+        got = mem.get(at, 0) | (mem.get(at + 1, 0) << 8)
+        if got != tgt:
+            return core.R(False, 'bodylocal-binding', 'bodylocal/binding/%s' % ('outer-symbol-in-%s' % ('global' if case['where'] == 0 else 'section-level-%d-of-%d' % (case['where'], case['depth'])) if case['where'] >= 0 else 'no-outer-symbol'),
+                          'the reference at %x goes to %x, model %x on %s' % (at - 1, got, tgt, d))
+    return core.R(True, 'bodylocal-ok', states=['bl:%d:%d:%s' % (case['depth'], case['where'], case['ref'])])
+
+
 # ---- (c) mutability -----------------------------------------------------------------------------
 
 MOPS = ['x\tequ 1', 'x\tequ 2', 'x\tset 1', 'x\tset 2', 'x:', 'x\t= 1', 'x\t:= 2', 'x\tequ 1+0']
@@ -732,6 +806,7 @@ def subspaces(tier):
     subs.append(('a:section-trees<=%d' % (3 if q else 4), tree_cases(3 if q else 4, 2 if q else 3)))
     subs.append(('a2:public-global-forward', export_cases(3 if q else 4)))
     subs.append(('b:temporary-symbols<=%d' % (4 if q else 5), temp_cases(4 if q else 5)))
+    subs.append(('b2:body-local-labels-vs-section-symbols', list(bodylocal_cases())))
     nm = 3 if q else 4
     subs.append(('c:mutability<=%d' % nm, [{'k': 'mut', 'seq': list(s)} for k in range(1, nm + 1) for s in itertools.product(MOPS, repeat=k)]))
     npv = 4 if q else 5
@@ -747,6 +822,8 @@ def describe(case):
 
 def evaluate(case):
     k = case['k']
+    if k == 'bodylocal':
+        return ev_bodylocal(case)
     if k in ('tree', 'treeill'):
         return ev_tree(case)
     if k in ('export', 'forward'):
